@@ -783,3 +783,18 @@ func sortedKeys(m map[string]any) []string {
 	return ks
 }
 
+
+func renderItems(xs []any) string {
+	c := make(system.Collection, len(xs))
+	copy(c, xs)
+	return clip(renderColl(c), 500)
+}
+
+
+func itemID(x any) string {
+	if m, ok := x.(proto.Message); ok {
+		return fmt.Sprintf("%T@%p", m, m)
+	}
+	return renderItem(x)
+}
+
